@@ -6,7 +6,7 @@
 use std::{path::Path, sync::Arc};
 
 use dashmap::{DashMap, Entry};
-use fjall::Keyspace;
+use fjall::{Keyspace, Readable};
 use qbice_serialize::{
     Decoder, Encode, Encoder, Plugin, PostcardDecoder, PostcardEncoder,
 };
@@ -400,7 +400,10 @@ impl KvDatabase for Fjall {
         let mut buffer = Vec::new();
         self.0.encode_wide_column_key::<W, C>(key, &mut buffer);
 
-        match keyspace.get(&buffer) {
+        // read through a snapshot: a plain keyspace read can observe a batch
+        // that is still being applied (fjall inserts the items of a batch one
+        // by one)
+        match self.0.db.snapshot().get(&keyspace, &buffer) {
             Ok(Some(value_bytes)) => {
                 let mut decoder = PostcardDecoder::new(std::io::Cursor::new(
                     value_bytes.as_ref(),
@@ -430,7 +433,11 @@ impl KvDatabase for Fjall {
         self.0.encode_value_length_prefixed(key, &mut prefix_buffer);
 
         // Use prefix iterator
-        let iter = keyspace.prefix(prefix_buffer.as_slice());
+        let iter = self
+            .0
+            .db
+            .snapshot()
+            .prefix(&keyspace, prefix_buffer.as_slice());
 
         ScanMemberIterator {
             iter,
